@@ -26,7 +26,11 @@ import (
 type refSigs struct {
 	Funcs  map[string]string `json:"funcs"`  // "(*cache.Target).gnmiUpdate" -> signature
 	Fields map[string]string `json:"fields"` // "ctree.Tree.leafBranch" -> type
+	// Params: reference parameter list (incl. receiver) of every function: [name, type] pairs
+	Params map[string][][2]string `json:"params"`
 }
+
+var refParams map[string][][2]string
 
 var (
 	canonFn    = map[*ssa.Function]string{} // renamed function -> reference name
@@ -52,7 +56,7 @@ func ownerOf(name string) string {
 }
 
 func (p *Prog) snapshotSigs() refSigs {
-	rs := refSigs{Funcs: map[string]string{}, Fields: map[string]string{}}
+	rs := refSigs{Funcs: map[string]string{}, Fields: map[string]string{}, Params: map[string][][2]string{}}
 	for _, mp := range p.ModPkgs() {
 		rel := strings.TrimPrefix(mp, modPath+"/")
 		for _, f := range p.PkgFuncs(rel) {
@@ -60,6 +64,11 @@ func (p *Prog) snapshotSigs() refSigs {
 				continue
 			}
 			rs.Funcs[rawFnName(f)] = sigString(f)
+			var ps [][2]string
+			for _, pr := range f.Params {
+				ps = append(ps, [2]string{pr.Name(), types.TypeString(pr.Type(), func(p *types.Package) string { return p.Path() })})
+			}
+			rs.Params[rawFnName(f)] = ps
 		}
 		sp := p.SSAPkg[mp]
 		for _, m := range sp.Members {
@@ -102,6 +111,7 @@ func (p *Prog) canonicalise(path string) {
 		canonNotes = append(canonNotes, "refsigs.json unreadable: "+err.Error())
 		return
 	}
+	refParams = ref.Params
 	cur := p.snapshotSigs()
 	// ---- functions
 	curFns := map[string]*ssa.Function{}
@@ -210,4 +220,120 @@ func fbase(f *ssa.Function) string {
 		return n
 	}
 	return f.Name()
+}
+
+// param returns the parameter of fn that corresponds to parameter i of the reference tree (receiver = 0):
+// the parameter still at position i if its name or type is the reference one; otherwise the parameter
+// carrying the reference name; otherwise the only parameter of the reference type.  A reordered
+// parameter list of an unexported helper therefore changes no verdict.
+func param(fn *ssa.Function, i int) *ssa.Parameter {
+	if fn == nil || i >= len(fn.Params) && refParams == nil {
+		return nil
+	}
+	ref := refParams[fnName(fn)]
+	if i >= len(ref) {
+		if i < len(fn.Params) {
+			return fn.Params[i]
+		}
+		return nil
+	}
+	tstr := func(p *ssa.Parameter) string {
+		return types.TypeString(p.Type(), func(pk *types.Package) string { return pk.Path() })
+	}
+	want := ref[i]
+	if i < len(fn.Params) && (fn.Params[i].Name() == want[0] || tstr(fn.Params[i]) == want[1]) {
+		// unchanged position unless another parameter is the better match by name AND this one's name moved away
+		if fn.Params[i].Name() == want[0] {
+			return fn.Params[i]
+		}
+		byName := -1
+		for j, p := range fn.Params {
+			if p.Name() == want[0] && tstr(p) == want[1] {
+				byName = j
+			}
+		}
+		if byName < 0 {
+			return fn.Params[i]
+		}
+		return fn.Params[byName]
+	}
+	for _, p := range fn.Params {
+		if p.Name() == want[0] && tstr(p) == want[1] {
+			return p
+		}
+	}
+	var only *ssa.Parameter
+	n := 0
+	for _, p := range fn.Params {
+		if tstr(p) == want[1] {
+			only = p
+			n++
+		}
+	}
+	if n == 1 {
+		return only
+	}
+	if i < len(fn.Params) {
+		return fn.Params[i]
+	}
+	return nil
+}
+
+// refPerm: perm[i] = current position of the parameter that is parameter i on the reference tree, or
+// nil when the order is unchanged / unknown.  Call events are recorded in reference order.
+var refPermMemo = map[*ssa.Function][]int{}
+
+func refPerm(fn *ssa.Function) []int {
+	if fn == nil || refParams == nil {
+		return nil
+	}
+	if p, ok := refPermMemo[fn]; ok {
+		return p
+	}
+	var perm []int
+	ref := refParams[fnName(fn)]
+	if len(ref) == len(fn.Params) && len(ref) > 1 {
+		perm = make([]int, len(ref))
+		used := map[int]bool{}
+		ident := true
+		for i := range ref {
+			pr := param(fn, i)
+			idx := -1
+			for j, q := range fn.Params {
+				if q == pr {
+					idx = j
+				}
+			}
+			if idx < 0 || used[idx] {
+				perm = nil
+				break
+			}
+			used[idx] = true
+			perm[i] = idx
+			if idx != i {
+				ident = false
+			}
+		}
+		if ident {
+			perm = nil
+		}
+	}
+	refPermMemo[fn] = perm
+	return perm
+}
+
+// refArgs: the operands of a static call in reference parameter order.
+func refArgs(c *ssa.CallCommon) []ssa.Value {
+	args := c.Args
+	if c.IsInvoke() {
+		return args
+	}
+	if perm := refPerm(staticCallee(c)); perm != nil && len(perm) == len(args) {
+		re := make([]ssa.Value, len(args))
+		for i := range perm {
+			re[i] = args[perm[i]]
+		}
+		return re
+	}
+	return args
 }
